@@ -82,6 +82,8 @@ func main() {
 		}
 	case "worker":
 		workerMain()
+	case "inspect1":
+		inspect1Main()
 	case "mkfixtures":
 		mkFixtures(os.Args[2])
 	default:
